@@ -95,7 +95,8 @@ double DownhillSimplexMethod::doStep()
 
   for (unsigned int i = 0; i < mpts; i++)
   {
-    if (y_[i] <= y_[iLowest_])
+    // strict comparison: when all values are equal the lowest vertex must not be the one also taken as highest
+    if (y_[i] < y_[iLowest_])
       iLowest_ = i;
     if (y_[i] > y_[iHighest_])
     {
